@@ -84,6 +84,10 @@ def run(tier):
     run = run_expected("C02", tier, jobs, execute, "C02",
                        lambda r: "name=%s form=%s facet=%s layers=%s pbc_z=%s noise=%s" % (
                            r["desc"]["name"], r["desc"]["form"], r["desc"].get("facet"), r["desc"].get("layers"), r["desc"].get("pbc_z"), r["desc"].get("noise")))
+    rr = tlc.run("Region.tla", "Region_mc.cfg")
+    if rr.violated:
+        raise MachineryError("Region.tla design model violates %s" % rr.violated)
+    run.add_model(rr, "Region_mc: the breadth-first region tracking reaches every atom of an ideal crystal exactly once (Complete, EachAtomOnce, NoOverride), every seed position")
     run.assume("precondition (independent, margin 0.15 A): primitive cell <= 6 atoms and vectors < 6 A; bonded network of rank 3 / 2; no overlap; periodic heights > 12 A; descriptors failing it are skipped and counted",
                "PeriodicFinder's float heuristics are observed, not modelled: the decision on each explored input is made by TLC on the recorded outcome")
     run.cov["rule"] = "reference elements (fcc/bcc/hcp/diamond/sc) and compound prototypes as bulk supercells or 3-4 layer slabs (TTT/TTF), noise 0/0.02/0.05, random rotation, translation, permutation, seed; non-trivial = distinct descriptors"
